@@ -366,6 +366,29 @@ def directed_cases(ck):
               if not ok:
                   bad('T-intervals/copy-of-a-loosely-measured-path', '%s of a path after length(%s): joints at T = %r, accurate shares %r' % (nm, loose, got, want), repr(want), repr(got))
 
+    # (6) isclosed never says True for a path that is not one closed loop: several closed sub-paths (two triangles) are refused or answered False
+    tri = lambda o: [sp.Line(o, o + 4), sp.Line(o + 4, o + 2 + 3j), sp.Line(o + 2 + 3j, o)]      # noqa
+    for tag_, pth in (('two triangles', sp.Path(*(tri(0j) + tri(10 + 0j)))), ('triangle + open stroke', sp.Path(*(tri(0j) + [sp.Line(9 + 9j, 12 + 9j)]))),
+                      ('two loops of curves', sp.Path(sp.CubicBezier(0j, 3 + 3j, 3 - 3j, 0j), sp.QuadraticBezier(5 + 0j, 7 + 4j, 5 + 0j)))):
+        ck.case(fp=('isclosed-compound', tag_), nontrivial=True)
+        try:
+            got = pth.isclosed()
+        except Exception as e:      # noqa
+            got = e
+        if got is True or (not isinstance(got, Exception) and bool(got)):
+            bad('isclosed/true-for-a-path-with-jumps', '%s: isclosed() = %r although consecutive end points do not coincide' % (tag_, got), 'False or a refusal', repr(got))
+    # (7) a collinear cubic whose control points lie outside the span start..end (it overshoots and comes back): its share of T is its travelled length
+    over = sp.CubicBezier(1 + 0j, 6 + 0j, -3 + 0j, 2 + 0j)
+    trav = sum(abs(over.point((j_ + 1) / 20000.0) - over.point(j_ / 20000.0)) for j_ in range(20000))
+    pth = sp.Path(sp.Line(-3 + 4j, 1 + 0j), over, sp.Line(2 + 0j, 2 + 5j))
+    ck.case(fp=('overshooting-collinear-cubic',), nontrivial=True)
+    l0_, l2_ = abs(pth[0].end - pth[0].start), abs(pth[2].end - pth[2].start)
+    tot = l0_ + trav + l2_
+    want = [l0_ / tot, (l0_ + trav) / tot]
+    got = [pth.t2T(0, 1.0), pth.t2T(1, 1.0)]
+    if any(not (abs(a_ - b_) <= 1e-4) for a_, b_ in zip(got, want)):
+        bad('T-intervals/collinear-cubic-that-overshoots', 'Line, %r, Line: joints at T = %r, the travelled lengths give %r' % (over, got, want), repr(want), repr(got))
+
 
 def run(ck):
     # the identities that entitle the placement families to their oracle (differences, determinant ratios, squared lengths, extreme coordinates), for all integers
